@@ -213,3 +213,7 @@ def run(tier, V):
     assumptions = ['NUL bytes are excluded (the statement says NUL-free)', 'vi-mode forms are used with valid UTF-8 contents only',
                    'short writes and failing system calls belong to C03']
     return cov, assumptions
+
+
+def REPLAY(w):
+    return run_case((build('asan'), w['index']))[:2]
